@@ -74,6 +74,7 @@ def build(seed, run, overrides=None):
     knobs = gen.default_knobs(rng, PROP)
     knobs["mutable"] = rng.random() < 0.4
     knobs["p_dup"] = rng.choice([0.15, 0.25, 0.4])
+    knobs["p_stmt"] = rng.choice([0.0, 0.3, 0.6])  # complete statements (upserts, UPDATE..JOIN, set operations) as roots
     if overrides:
         knobs.update(overrides)
     env = lang.Env(share_tables=knobs["share_tables"])
